@@ -18,7 +18,9 @@ RULE = ('random operation histories (5-45 ops, cache holding 1/2/3/all items, fi
         'and in-memory stores) on the real TrajectoryStore; after EVERY operation the '
         'returned index / len / item fingerprints+contents / iteration order are '
         'compared with a Python list model; a class is (operation, session kind, '
-        'cached|reloaded, old|new item relative to session start)')
+        'cached|reloaded, old|new item relative to session start); plus one long store (quick '
+        '303, thorough 33 003 trajectories) read at the power-of-two boundaries in the creating, '
+        'an appending and a reading session')
 ASSUMPTIONS = [
     'negative indices are not exercised (the property speaks of indices beyond the end)',
     'all store work happens in the main thread of a fresh process per shard',
@@ -31,7 +33,8 @@ SHARD_TIMEOUT = {'quick': 600, 'thorough': 3600}
 def plan(tier, seed):
     n_shards = 16
     per = 20 if tier == 'quick' else 500
-    return [{'seed': seed * 1000 + i, 'n': per} for i in range(n_shards)]
+    return [{'seed': seed * 1000 + i, 'n': per} for i in range(n_shards)] + \
+        [{'seed': seed * 1000 + 99, 'n': 0, 'big': 300 if tier == 'quick' else 33000}]
 
 
 def required(tier):
@@ -43,6 +46,8 @@ def required(tier):
             'get:beyond-end:append', 'get:beyond-end:read',
             'assoc-lag:append-continues-base-list', 'iter-overlapping:read',
             'iter-overlapping:append',
+            'big-store:more-than-255-trajectories' if tier == 'quick' else
+            'big-store:more-than-32767-trajectories',
         ],
         'counters': {'evictions': 1, 'append_old_reload': 1, 'append_new_reload': 1},
         'evaluations': 500,
@@ -198,10 +203,67 @@ def assoc_lag_history(rng, workdir: Path, rec, k):
             p.unlink(missing_ok=True)
 
 
+def big_store(spec, rec, workdir, identified=False):
+    """One long store: N additions (N beyond 255, at thorough tier beyond 32 767), reads at
+    the power-of-two boundaries, in the creating session, an append session and a read session."""
+    from vlib.storeops import StoreHistory
+
+    rng = random.Random(f"big-{spec['seed']}")
+    N = spec['big']
+    h = StoreHistory(rng, workdir, rec, identified=identified, cache_items=3, uid_base=5_000_000)
+    marks = [0, 1, 49, 50, 51, 99, 100, 127, 128, 254, 255, 256, 257, 511, 512, 1023, 1024,
+             4095, 4096, 32766, 32767, 32768, 32769]
+
+    def boundary_reads(extra=8):
+        n = len(h.model)
+        for i in [m for m in marks if m < n] + [n - 1, n, n + 1]:
+            h.op_get(i)
+        for _ in range(extra):
+            i = rng.randrange(n)
+            h.op_get(i)
+            if identified:
+                h.op_lookup(True)
+    try:
+        h.open_session('create_file')
+        for j in range(N):
+            h.op_add()
+            if (j + 1) in (255, 256, 257, 32767, 32768, 32769) or (j + 1) % 997 == 0:
+                boundary_reads(3)
+        boundary_reads()
+        h.close()
+        h.open_session('append')
+        h.check_len()
+        boundary_reads()
+        for _ in range(3):
+            h.op_add()
+        boundary_reads()
+        h.close()
+        h.open_session('read')
+        h.check_len()
+        boundary_reads(30)
+        if identified:
+            for _ in range(20):
+                h.op_lookup(False)
+        h.op_iter()
+        h.close()
+        rec.cls(f'big-store:{"more-than-32767" if N > 32767 else "more-than-255"}-trajectories')
+        rec.count('big_store_trajectories', N + 3)
+    finally:
+        h.cleanup()
+
+
 def run_shard(spec, rec):
     from vlib.storeops import Mismatch
 
     workdir = Path(tempfile.mkdtemp(prefix='c07-'))
+    if 'big' in spec:
+        try:
+            big_store(spec, rec, workdir)
+        except Mismatch as m:
+            classify(rec, m, {'spec': dict(spec), 'k': 'big'})
+        finally:
+            shutil.rmtree(workdir, ignore_errors=True)
+        return
     try:
         ks = [spec['only']] if 'only' in spec else range(spec['n'])
         for k in ks:
